@@ -499,6 +499,47 @@ func runC16(c *Ctx) {
 		c16TopLevel(c, nc.env, nc.names, sx.List)
 	}
 
+	// the repaired model must satisfy the property on the same probes (guards the theorem statements:
+	// a failure here means `Defects.repaired` is not a repair)
+	for i := range reqs {
+		reqs[i] = strings.Replace(reqs[i], "(c16-names asis ", "(c16-names repaired ", 1)
+	}
+	resp, err = c.AskAll(reqs)
+	if err != nil {
+		c.R.Mismatch("driver", "c16-names repaired", err.Error(), "")
+		return
+	}
+	for i, nc := range ncs {
+		sx, perr := ParseSx(resp[i])
+		if perr != nil || !sx.IsL || len(sx.List) != len(nc.names) {
+			c.R.Mismatch("c16/repaired-model", nc.env.Name, resp[i], "unparsable or wrong length")
+			continue
+		}
+		t := reflect.TypeOf(nc.env.Val)
+		isStructEnv := t.Kind() == reflect.Struct || (t.Kind() == reflect.Ptr && t.Elem().Kind() == reflect.Struct)
+		for j, name := range nc.names {
+			row := sx.List[j].List // name ident func fetch fetchfn reflfield doc
+			bad := ""
+			identOk, funcOk := row[1].Tag() == "ok", row[2].Tag() == "ok"
+			if identOk && !(row[3].Tag() == "ok" && row[3].List[1].String() == row[1].List[1].String()) {
+				bad = "identifier accepted but fetch differs"
+			}
+			if funcOk && row[2].List[1].Tag() == "func" && row[4].Tag() != "ok" {
+				bad = "function accepted but not callable"
+			}
+			if isStructEnv && row[5].Tag() == "found" && row[5].List[2].Atom == "true" && !identOk && !funcOk {
+				bad = "exported field resolved by Go is rejected"
+			}
+			if (row[6].Atom == "true") != (identOk || funcOk || exprReserved[name]) {
+				bad = "doc differs from accepted names"
+			}
+			c.R.Count("repaired-model-checks", 1)
+			if bad != "" {
+				c.R.Mismatch("c16/repaired-model", nc.env.Name+" "+name, sx.List[j].String(), bad)
+			}
+		}
+	}
+
 	// ---------------------------------------------------------------- 3. nested members
 	c16Nested(c, envs)
 
@@ -865,6 +906,47 @@ func c16Nested(c *Ctx, envs []zooEnv) {
 		}
 		for j, name := range mc.names {
 			c16Member(c, mc.env, mc.path, mc.rt, name, sx.List[j].List)
+		}
+	}
+	// the repaired model on the same member probes
+	for i := range reqs {
+		reqs[i] = strings.Replace(reqs[i], "(c16-member asis ", "(c16-member repaired ", 1)
+	}
+	resp, err = c.AskAll(reqs)
+	if err != nil {
+		c.R.Mismatch("driver", "c16-member repaired", err.Error(), "")
+		return
+	}
+	for i, mc := range mcs {
+		sx, perr := ParseSx(resp[i])
+		if perr != nil || !sx.IsL || len(sx.List) != len(mc.names) {
+			c.R.Mismatch("c16/repaired-model", mc.env.Name+" "+mc.path, resp[i], "unparsable or wrong length")
+			continue
+		}
+		base := mc.rt
+		for base.Kind() == reflect.Ptr {
+			base = base.Elem()
+		}
+		for j, name := range mc.names {
+			row := sx.List[j].List // name fieldType methodType fetchTy fetchFnTy reflField
+			bad := ""
+			if base.Kind() != reflect.Interface {
+				if row[1].Tag() == "ok" && !(row[3].Tag() == "ok" && row[3].List[1].String() == row[1].List[1].String()) {
+					bad = "member accepted but fetch differs"
+				}
+				if row[2].Tag() == "ok" && base.Kind() != reflect.Map && row[2].List[1].Tag() == "func" && row[4].Tag() != "ok" {
+					bad = "method accepted but not callable"
+				}
+				if mc.rt.Kind() != reflect.Ptr || mc.rt.Elem().Kind() != reflect.Ptr {
+					if row[5].Tag() == "found" && row[5].List[2].Atom == "true" && row[1].Tag() != "ok" {
+						bad = "exported member resolved by Go is rejected"
+					}
+				}
+			}
+			c.R.Count("repaired-model-checks", 1)
+			if bad != "" {
+				c.R.Mismatch("c16/repaired-model", mc.env.Name+" "+mc.path+"."+name+" : "+mc.rt.String(), sx.List[j].String(), bad)
+			}
 		}
 	}
 }
